@@ -1,0 +1,66 @@
+//go:build verif
+
+// Contracts for package saml, read by /verif/engine (govc). This file contains only a
+// package clause and structured comments; it is excluded from normal builds.
+package saml
+
+//@ -- ------------------------------------------------------------------------------------------
+//@ -- specification vocabulary (pure Go, evaluated symbolically by the same translator as the code)
+
+//@ go func issueFresh(t time.Time, now time.Time) bool { return ns(now) <= ns(t)+int64(MaxIssueDelay) }
+//@ go func spAudience(sp *ServiceProvider) string { return firstSet(sp.EntityID, sp.MetadataURL.String()) }
+//@ go func idMatches(ids []string, id string) bool {
+//@    return exists(0, len(ids), func(j int) bool { return ids[j] == id }) }
+//@ go func confWindow(sc SubjectConfirmation, now time.Time) bool {
+//@    return sc.SubjectConfirmationData != nil && ns(now) <= ns(sc.SubjectConfirmationData.NotOnOrAfter)+int64(MaxClockSkew) }
+//@ go func confRecipient(sp *ServiceProvider, sc SubjectConfirmation) bool {
+//@    return sc.SubjectConfirmationData != nil && sc.SubjectConfirmationData.Recipient == sp.AcsURL.String() }
+//@ go func confRequest(sp *ServiceProvider, sc SubjectConfirmation, ids []string) bool {
+//@    return sc.SubjectConfirmationData != nil && (sp.AllowIDPInitiated || idMatches(ids, sc.SubjectConfirmationData.InResponseTo)) }
+//@ go func audienceOK(sp *ServiceProvider, a *Assertion) bool {
+//@    return len(a.Conditions.AudienceRestrictions) == 0 ||
+//@      exists(0, len(a.Conditions.AudienceRestrictions), func(k int) bool { return a.Conditions.AudienceRestrictions[k].Audience.Value == spAudience(sp) }) }
+//@ go func conditionsWindow(a *Assertion, now time.Time) bool {
+//@    return a.Conditions != nil && ns(now) >= ns(a.Conditions.NotBefore)-int64(MaxClockSkew) &&
+//@      ns(now) <= ns(a.Conditions.NotOnOrAfter)+int64(MaxClockSkew) }
+//@ go func allConfirmations(a *Assertion, p func(sc SubjectConfirmation) bool) bool {
+//@    return a.Subject != nil && forall(0, len(a.Subject.SubjectConfirmations), func(k int) bool { return p(a.Subject.SubjectConfirmations[k]) }) }
+//@ go func assertionValid(sp *ServiceProvider, a *Assertion, ids []string, now time.Time) bool {
+//@    return issueFresh(a.IssueInstant, now) && a.Issuer.Value == sp.IDPMetadata.EntityID && conditionsWindow(a, now) &&
+//@      allConfirmations(a, func(sc SubjectConfirmation) bool { return confWindow(sc, now) && confRecipient(sp, sc) && confRequest(sp, sc, ids) }) }
+
+//@ -- ------------------------------------------------------------------------------------------
+
+//@ contract (*ServiceProvider).validateRequestID
+//@ ensures[C04] match: sp.ValidateRequestID == nil ==>
+//@    (err == nil) == (sp.AllowIDPInitiated || idMatches(possibleRequestIDs, response.InResponseTo))
+//@ loop 1 vars requestIDvalid bool
+//@ invariant[C04] acc: requestIDvalid == exists(0, iter, func(j int) bool { return possibleRequestIDs[j] == response.InResponseTo })
+
+//@ contract (*ServiceProvider).validateAudienceRestriction
+//@ requires[cfg] a: assertion != nil && assertion.Conditions != nil
+//@ ensures[C03] default: sp.ValidateAudienceRestriction == nil ==> (err == nil) == audienceOK(sp, assertion)
+//@ loop 1 vars audienceRestrictionsValid bool
+//@ invariant[C03] acc: audienceRestrictionsValid == (len(assertion.Conditions.AudienceRestrictions) == 0 ||
+//@    exists(0, iter, func(k int) bool { return assertion.Conditions.AudienceRestrictions[k].Audience.Value == spAudience(sp) }))
+
+//@ contract (*ServiceProvider).validateAssertion
+//@ requires[cfg] a: assertion != nil
+//@ requires[cfg] md: sp.IDPMetadata != nil
+//@ -- soundness: acceptance implies every window / addressing / request condition, for every confirmation
+//@ ensures[C02] fresh: err == nil ==> issueFresh(assertion.IssueInstant, now)
+//@ ensures[C02] window: err == nil ==> conditionsWindow(assertion, now)
+//@ ensures[C02] conf_window: err == nil ==> allConfirmations(assertion, func(sc SubjectConfirmation) bool { return confWindow(sc, now) })
+//@ ensures[C03] issuer: err == nil ==> assertion.Issuer.Value == sp.IDPMetadata.EntityID
+//@ ensures[C03] conf_recipient: err == nil ==> allConfirmations(assertion, func(sc SubjectConfirmation) bool { return confRecipient(sp, sc) })
+//@ ensures[C03] audience: err == nil && sp.ValidateAudienceRestriction == nil ==> audienceOK(sp, assertion)
+//@ ensures[C04] conf_request: err == nil ==> allConfirmations(assertion, func(sc SubjectConfirmation) bool { return confRequest(sp, sc, possibleRequestIDs) })
+//@ -- completeness: an assertion strictly inside all windows, addressed to this SP and answering an outstanding request is accepted
+//@ ensures[C02,C03,C04] complete: sp.ValidateAudienceRestriction == nil && assertionValid(sp, assertion, possibleRequestIDs, now) &&
+//@    audienceOK(sp, assertion) ==> err == nil
+//@ loop 1
+//@ invariant[C02] seen_window: forall(0, iter, func(k int) bool { return confWindow(assertion.Subject.SubjectConfirmations[k], now) })
+//@ invariant[C03] seen_recipient: forall(0, iter, func(k int) bool { return confRecipient(sp, assertion.Subject.SubjectConfirmations[k]) })
+//@ invariant[C04] seen_request: forall(0, iter, func(k int) bool { return confRequest(sp, assertion.Subject.SubjectConfirmations[k], possibleRequestIDs) })
+//@ loop 2 vars subjectConfirmation SubjectConfirmation
+//@ invariant[C04] nomatch: forall(0, iter, func(j int) bool { return possibleRequestIDs[j] != subjectConfirmation.SubjectConfirmationData.InResponseTo })
